@@ -9,6 +9,7 @@ CONSTANTS
   CtxMayExpire = FALSE
   ClientMayClose = FALSE
   HandlerMayClose = FALSE
+  HandlerMayHijack = FALSE
   StartMayFail = FALSE
   SpareFields = FALSE
   SeqRestart = FALSE
